@@ -1,4 +1,5 @@
 import BronVerif.Lemmas.Transcript
+import BronVerif.Gen.Hagrid
 import Mathlib.Data.Set.Function
 /-!
 Property theorems of C19, transcript part.  All statements are about the definitions of
@@ -230,5 +231,49 @@ theorem clone_copy (H : Bytes → Bytes → Nat → Bytes) (m : Machine) (i : Na
 
 example : (step cshakeH [State.new [1], State.new [2]] (.append 1 [3] [[4]])).1[0]? = some (State.new [1]) :=
   clone_independent cshakeH _ _ 0 (by simp) (by simp [target])
+
+/-! ### tie to the Go source (regenerated from /repo on every check run: `Gen/Hagrid.lean`) -/
+
+/-- the model's tag bytes and cSHAKE customisation prefix are those of hagrid.go (Go `iota` rules applied
+by the translator) -/
+theorem constants_match_source :
+    Gen.Hagrid.tags = [("domainTag", domainTag.toNat), ("appendTag", appendTag.toNat),
+      ("extractTag", extractTag.toNat), ("extractedTag", extractedTag.toNat),
+      ("continuedTag", continuedTag.toNat)] ∧
+    Gen.Hagrid.customizedShakeName = customizedShakeName := by decide
+
+/-- the sequence of sponge writes of every hagrid method is the one `frameOp`/`State.extract` were
+transcribed from: tag, 64-bit label length, label, (count, then per message length and bytes | requested
+length, fork, `continued` on the live sponge and `extracted` on the squeezed clone) -/
+theorem writes_match_source :
+    Gen.Hagrid.functions = ["NewTranscript", "AppendDomainSeparator", "AppendBytes", "ExtractBytes", "Clone", "cloneShake"] ∧
+    Gen.Hagrid.writes_NewTranscript = ["sha3.NewCSHAKE256(nil, []byte(customizedShakeName+name))"] ∧
+    Gen.Hagrid.writes_AppendDomainSeparator =
+      ["t.h.Write []byte{byte(domainTag)}",
+       "t.h.Write binary.BigEndian.AppendUint64(nil, uint64(len(domainSeparatorTag)))",
+       "t.h.Write []byte(domainSeparatorTag)"] ∧
+    Gen.Hagrid.writes_AppendBytes =
+      ["t.h.Write []byte{byte(appendTag)}",
+       "t.h.Write binary.BigEndian.AppendUint64(nil, uint64(len(label)))",
+       "t.h.Write []byte(label)",
+       "t.h.Write binary.BigEndian.AppendUint64(nil, uint64(len(messages)))",
+       "range messages {",
+       "t.h.Write binary.BigEndian.AppendUint64(nil, uint64(len(message)))",
+       "t.h.Write message",
+       "}"] ∧
+    Gen.Hagrid.writes_ExtractBytes =
+      ["if outLen == 0 {", "return-error", "}",
+       "t.h.Write []byte{byte(extractTag)}",
+       "t.h.Write binary.BigEndian.AppendUint64(nil, uint64(len(label)))",
+       "t.h.Write []byte(label)",
+       "t.h.Write binary.BigEndian.AppendUint64(nil, uint64(outLen))",
+       "cloneShake t.h",
+       "t.h.Write []byte{byte(continuedTag)}",
+       "hClone.Write []byte{byte(extractedTag)}",
+       "ReadFull hClone",
+       "if err != nil {", "return-error", "}"] ∧
+    Gen.Hagrid.writes_Clone = ["cloneShake t.h"] ∧
+    Gen.Hagrid.writes_cloneShake = [] :=
+  ⟨rfl, rfl, rfl, rfl, rfl, rfl, rfl⟩
 
 end BronVerif.Props.C19
